@@ -72,6 +72,8 @@ type Machine struct {
 	OnBusRead  func(addr uint16, val uint8)
 	tapped     bool
 
+	AutoDrain bool // drain the sample channels after every cycle (checks that attach speakers without judging sound)
+
 	DisplayCleanups int
 	SlowSerial      bool // coroutine mode: the serial writer blocks (yields to the scheduler) before consuming its argument
 	SerialParks     int
@@ -123,6 +125,25 @@ func (c *SimContext) EndCycle(gb *gameboy.Gameboy, mtick int) {
 	m := c.m
 	m.N++
 	m.MTick = mtick
+	if m.AutoDrain && m.Spk != nil {
+		// a prompt audio consumer for checks that are not about sound: whatever was produced is taken
+		for more := true; more; {
+			select {
+			case _, ok := <-m.Spk.Left():
+				more = ok
+			default:
+				more = false
+			}
+		}
+		for more := true; more; {
+			select {
+			case _, ok := <-m.Spk.Right():
+				more = ok
+			default:
+				more = false
+			}
+		}
+	}
 	if m.OnCycle != nil {
 		m.OnCycle()
 	}
